@@ -47,6 +47,18 @@ def main():
     with open(out, "w") as f:
         for case in spec["cases"]:
             res = run_one(mod, case, spec["tier"])
+            # an inconclusive case says nothing about the property (a wall-clock watchdog of the harness fired on a loaded
+            # machine, a scripted peer did not get its handshake through ...): it is run again - up to twice, once after a
+            # case watchdog - and the first attempt that decides counts. A violation is never retried.
+            tries = 0
+            while res.get("inconclusive") and not res.get("violations") and tries < (1 if "case watchdog" in str(res["inconclusive"]) else 2):
+                tries += 1
+                first = str(res["inconclusive"])
+                time.sleep(0.2 * tries)
+                res = run_one(mod, case, spec["tier"])
+                res.setdefault("counters", {})
+                res["counters"]["inconclusive_attempts_repeated"] = res["counters"].get("inconclusive_attempts_repeated", 0) + tries
+                res["repeated_after"] = first[:300]
             f.write(json.dumps(res, default=str) + "\n")
             f.flush()
     if hasattr(mod, "worker_fini"):
